@@ -151,5 +151,5 @@ def compute_advection_diffusion_stable_timestep(
     velocity_magnitude_field[...] = np.sum(np.fabs(velocity_field), axis=0)
     return min(
         cfl * dx / (np.amax(velocity_magnitude_field) + tol),
-        0.9 * dx**2 / (2 * grid_dim) / kinematic_viscosity + tol,
+        0.9 * dx**2 / (2 * grid_dim) / kinematic_viscosity,
     )
